@@ -171,6 +171,7 @@ type kase struct {
 	api        string
 	witness    string
 	convKey    string // parameter description used for the convention observation (default: witness)
+	prefixOnly bool   // want holds only the first objects of a family too large to exhaust: drive len(want) calls, exhaustion is not reached
 	detail     map[string]interface{}
 	build      func() iface // calls the constructor
 	want       [][]int      // canonical objects, in the documented order if ordered
@@ -200,12 +201,13 @@ type trace struct {
 func cpInts(a []int) []int { return append(make([]int, 0, len(a)), a...) }
 
 func enc(a []int) string {
-	b := make([]byte, len(a))
+	b := make([]byte, 2*len(a))
 	for i, v := range a {
-		if v < -1 || v > 250 {
-			return "\xff" + fmt.Sprint(a)
+		if v < -1 || v > 65000 {
+			return "\xff\xff\xff" + fmt.Sprint(a)
 		}
-		b[i] = byte(v + 1)
+		b[2*i] = byte((v + 1) >> 8)
+		b[2*i+1] = byte(v + 1)
 	}
 	return string(b)
 }
@@ -286,6 +288,10 @@ func (r *runner) drive(k *kase, tr *trace) *engine.PanicInfo {
 			if it.aux != nil {
 				tr.phase = fmt.Sprintf("%s after Next call #%d", k.auxName, tr.calls)
 				tr.aux = append(tr.aux, cpInts(it.aux()))
+			}
+			if k.prefixOnly && len(tr.raw) == expected {
+				tr.phase = "done (prefix only)"
+				return
 			}
 			if len(tr.raw) > expected {
 				tr.over = true
@@ -475,6 +481,12 @@ func (r *runner) run(k *kase) {
 	}
 
 	c.Obs("further_next_calls_after_exhaustion", tr.further)
+	if k.prefixOnly {
+		c.Obs("prefix_only_cases:"+k.api, 1)
+	}
+	if maxOf(firstOf(tr.raw)) >= 64 || len(firstOf(tr.raw)) > 64 {
+		c.Obs("cases_with_more_than_64_positions_or_values:"+k.api, 1)
+	}
 
 	if len(want) >= 2 && (!k.predDriven || (k.mon != nil && k.mon.rejected > 0)) {
 		c.NT(k.api, k.witness)
@@ -499,6 +511,39 @@ func panicFunc(pi *engine.PanicInfo) string {
 		return fn
 	}
 	return engine.SiteNoLine(pi.Site)
+}
+
+func maxOf(a []int) int {
+	m := -1
+	for _, v := range a {
+		if v > m {
+			m = v
+		}
+	}
+	return m
+}
+
+// vecName prints a vector; long ones run-length encoded ("1x64" = 64 entries equal to 1).
+func vecName(v []int) string {
+	if len(v) <= 12 {
+		return ints(v)
+	}
+	var parts []string
+	for i := 0; i < len(v); {
+		j := i
+		for j < len(v) && v[j] == v[i] {
+			j++
+		}
+		if j-i >= 3 {
+			parts = append(parts, fmt.Sprintf("%dx%d", v[i], j-i))
+		} else {
+			for t := i; t < j; t++ {
+				parts = append(parts, fmt.Sprint(v[t]))
+			}
+		}
+		i = j
+	}
+	return fmt.Sprintf("len%d[%s]", len(v), strings.Join(parts, ","))
 }
 
 func firstOf(a [][]int) []int {
@@ -551,7 +596,7 @@ func multisetCombinationsCase(m []int, k int) *kase {
 		want[i] = refiter.FreqToMultiset(f)
 	}
 	mm := cpInts(m)
-	return &kase{api: "MultisetCombinations", witness: fmt.Sprintf("m=%s,k=%d", ints(m), k), want: want,
+	return &kase{api: "MultisetCombinations", witness: fmt.Sprintf("m=%s,k=%d", vecName(m), k), want: want,
 		detail: map[string]interface{}{"m": mm, "k": k},
 		canon: func(raw []int) ([]int, string) {
 			s := cpInts(raw)
@@ -597,7 +642,7 @@ func multisetPermutationsCase(freq []int) *kase {
 		tot += f
 	}
 	ff := cpInts(freq)
-	return &kase{api: "MultisetPermutations", witness: "freq=" + ints(freq), want: refiter.MultisetPermutations(freq), convention: tot == 0, convKey: "all frequencies zero",
+	return &kase{api: "MultisetPermutations", witness: "freq=" + vecName(freq), want: refiter.MultisetPermutations(freq), convention: tot == 0, convKey: "all frequencies zero",
 		ordered: true, orderName: "lexicographic", detail: map[string]interface{}{"freq": ff},
 		build: func() iface {
 			it := itertools.MultisetPermutations(cpInts(ff))
@@ -656,7 +701,7 @@ func integerPartitionsCase(n int) *kase {
 
 func productCase(d []int) *kase {
 	dd := cpInts(d)
-	return &kase{api: "Product", witness: "factors=" + ints(d), want: refiter.Product(d), convention: len(d) == 0,
+	return &kase{api: "Product", witness: "factors=" + vecName(d), want: refiter.Product(d), convention: len(d) == 0,
 		detail: map[string]interface{}{"factors": dd},
 		build: func() iface {
 			it := itertools.Product(cpInts(dd)...)
@@ -665,12 +710,12 @@ func productCase(d []int) *kase {
 }
 
 func distinctIn(p []int, n int) bool {
-	var seen uint64
+	seen := make([]bool, n)
 	for _, v := range p {
-		if v < 0 || v >= n || seen&(1<<uint(v)) != 0 {
+		if v < 0 || v >= n || seen[v] {
 			return false
 		}
-		seen |= 1 << uint(v)
+		seen[v] = true
 	}
 	return true
 }
@@ -696,7 +741,7 @@ func restrictedProductCase(d []int, p pred) *kase {
 	nodes := int64(0)
 	prod := int64(1)
 	for _, v := range d {
-		if v < 1 {
+		if v < 1 || prod > 1<<40 {
 			break
 		}
 		prod *= int64(v)
@@ -715,7 +760,7 @@ func restrictedProductCase(d []int, p pred) *kase {
 		return ""
 	})
 	// documented: with no factors the empty tuple is considered to pass
-	return &kase{api: "RestrictedPrefixProduct", witness: fmt.Sprintf("factors=%s,pred=%s", ints(d), p.name), mon: m, predDriven: true,
+	return &kase{api: "RestrictedPrefixProduct", witness: fmt.Sprintf("factors=%s,pred=%s", vecName(d), p.name), mon: m, predDriven: true,
 		want:   refiter.FilterPrefixes(refiter.Product(d), p.f),
 		detail: map[string]interface{}{"factors": dd, "predicate": p.name},
 		build: func() iface {
@@ -726,7 +771,7 @@ func restrictedProductCase(d []int, p pred) *kase {
 
 func permTreeNodes(n int) int64 {
 	nodes, t := int64(0), int64(1)
-	for l := 1; l <= n; l++ {
+	for l := 1; l <= n && nodes < 1<<40; l++ {
 		t *= int64(n - l + 1)
 		nodes += t
 	}
@@ -756,7 +801,7 @@ func restrictedPermutationsCase(n int, all [][]int, p pred) *kase {
 
 func patternCase(n int, p pred) *kase {
 	nodes, t := int64(0), int64(1)
-	for l := 1; l <= n; l++ {
+	for l := 1; l <= n && nodes < 1<<40; l++ {
 		t *= int64(l)
 		nodes += t
 	}
@@ -789,6 +834,13 @@ type relation struct {
 	name   string
 	seeded bool
 	pairs  [][2]int
+}
+
+func relDetail(rel relation) string {
+	if len(rel.pairs) > 40 {
+		return fmt.Sprintf("%s (%d pairs)", rel.name, len(rel.pairs))
+	}
+	return relName(rel.pairs)
 }
 
 func relName(pairs [][2]int) string {
@@ -853,7 +905,7 @@ func topologicalCase(n int, all [][]int, rel relation) *kase {
 		mat[e[0]*n+e[1]] = true
 	}
 	f := int64(1)
-	for i := 2; i <= n; i++ {
+	for i := 2; i <= n && f < 1<<30; i++ {
 		f *= int64(i)
 	}
 	m := &cbMon{limit: 16 * (f*int64(n*n) + 64)}
@@ -877,7 +929,7 @@ func topologicalCase(n int, all [][]int, rel relation) *kase {
 	}
 	return &kase{api: "TopologicalSorts", witness: fmt.Sprintf("n=%d,rel=%s", n, rel.name), mon: m, predDriven: true, convention: n == 0, convKey: "n=0",
 		want:    refiter.FilterTopological(all, rel.pairs),
-		detail:  map[string]interface{}{"n": n, "less_true_exactly_for": relName(rel.pairs)},
+		detail:  map[string]interface{}{"n": n, "less_true_exactly_for": relDetail(rel)},
 		auxName: "InverseValue",
 		auxCheck: func(cv, aux []int) string {
 			inv := refiter.Inverse(cv)
